@@ -161,6 +161,23 @@ theorem claim_covered {w : World} (hi : Backed w) (blk : Block) (snd : Addr) :
   simp only [amountSum] at h1 ⊢
   omega
 
+/-- **C10, the paying direction of `claim_pays_matured_once`**: in a backed world whose holdings fit
+`u128`, a `Claim` by an address with a positive amount of matured claims always succeeds — the payout
+can fail neither for lack of funds nor by overflow — so the matured claims *are* paid. -/
+theorem claim_succeeds {w : World} (hi : Backed w) (hfit : w.held ≤ U128_MAX) (blk : Block) (snd : Addr)
+    (hdue : 0 < amountSum (matured blk (claimsOf w.st snd))) :
+    ∃ w' out, tx w blk (.claim snd) = .ok (w', out) := by
+  have hcov := claim_covered hi blk snd
+  have h1 : amountSum (matured blk (claimsOf w.st snd)) ≤ U128_MAX := by omega
+  have h2 : amountSum (matured blk (claimsOf w.st snd)) ≠ 0 := by omega
+  obtain ⟨w', hw'⟩ := deliver_payout_ok
+    { w with st := { w.st with claims := w.st.claims.set snd (waiting blk (claimsOf w.st snd)) } } snd _ h2 hcov
+  refine ⟨w', [payout w.st.cfg.denom snd (amountSum (matured blk (claimsOf w.st snd)))], ?_⟩
+  simp only [tx, execute, execClaim, finish]
+  simp only [check, h1, h2, decide_true, if_true, ne_eq, not_false_eq_true, bind, Except.bind, pure, Except.pure]
+  simp only at hw'
+  rw [hw']
+
 /-! ## stake_frame -/
 
 /-- Stake tokens the transaction `op` bonds for `a`. -/
